@@ -14,12 +14,15 @@ from .common import *
 CC_RE = re.compile(r'extern\s+"(cdecl|stdcall|fastcall|thiscall|vectorcall)"')
 
 
-def _ext_supply(mod):
+def _ext_supply(mod, derives=True):
+    """the extern types of a module, supplied by the user of the bindings: plain-old-data of the declared size and alignment
+    (Copy + Clone on the host, so that a copyable type may embed one; the no_core crate has no derives)"""
     out = []
     for e in mod.get("exts") or []:
         if e["size"] == NONE or e["align"] == NONE:
             continue
-        out.append(f'#[repr(C, align({max(1, e["align"])}))] pub struct {e["name"]}(pub [u8; {e["size"]}]);')
+        out.append(("#[derive(Clone, Copy)] " if derives else "")
+                   + f'#[repr(C, align({max(1, e["align"])}))] pub struct {e["name"]}(pub [u8; {e["size"]}]);')
     return "\n".join(out)
 
 
@@ -227,7 +230,7 @@ def _nocore_batch(idx, batch, outdir, target):
                             lines.append(text)
                             where[len(lines)] = (cid, mp + (name,), it["k"])
                 if mp in mods_by_path:
-                    sup = _ext_supply(mods_by_path[mp])
+                    sup = _ext_supply(mods_by_path[mp], derives=False)
                     if sup:
                         lines.extend(sup.split("\n"))
                 emit(child, mp)
